@@ -1,8 +1,12 @@
 package checks
 
 import (
+	"bytes"
 	"fmt"
+	"reflect"
 	"testing"
+
+	avro "github.com/philpearl/avro"
 
 	"verifh/ref"
 	"verifh/spec"
@@ -64,4 +68,103 @@ func TestC02(t *testing.T) {
 	col := stats.New("C02")
 	col.Rule = c02Rule
 	propCheck(t, col, "c02", drawEncCase, runC02)
+}
+
+// ---------------------------------------------------------------------------
+// The same claim for files written through FileWriter directly (the API for rows
+// that are already encoded): the application encodes all rows into one buffer and
+// hands it over a block at a time, as windows of that buffer.
+
+func init() {
+	registerReplay("c02fw", func(c encCase) error { _, _, err := runC02FileWriter(c); return err })
+}
+
+func runC02FileWriter(c encCase) (bool, []string, error) {
+	typ := spec.Build(c.Type)
+	zero := reflect.New(typ).Elem().Interface()
+	s, err := avro.SchemaForType(zero)
+	if err != nil {
+		return false, nil, fmt.Errorf("SchemaForType: %v", err)
+	}
+	codec, err := s.Codec(zero)
+	if err != nil {
+		return false, nil, fmt.Errorf("Schema.Codec: %v", err)
+	}
+	doc, err := s.Marshal()
+	if err != nil {
+		return false, nil, fmt.Errorf("Marshal: %v", err)
+	}
+	docWas := string(doc)
+	wb := avro.NewWriteBuf(make([]byte, 0, 64))
+	var in []spec.AbsVal
+	ends := []int{}
+	for _, r := range c.Records {
+		v := spec.New(c.Type, r)
+		in = append(in, spec.Abs(c.Type, false, v.Elem()))
+		codec.Write(wb, v.UnsafePointer())
+		ends = append(ends, wb.Len())
+	}
+	rows := wb.Bytes()
+	rowsWas := append([]byte(nil), rows...)
+	fw, err := avro.NewFileWriter(doc, avro.Compression(c.Compression))
+	if err != nil {
+		return false, nil, fmt.Errorf("NewFileWriter: %v", err)
+	}
+	var out bytes.Buffer
+	if err := fw.WriteHeader(&out); err != nil {
+		return false, nil, fmt.Errorf("WriteHeader: %v", err)
+	}
+	start, first, nblocks := 0, 0, 0
+	for i := range c.Records {
+		last := i == len(c.Records)-1
+		if !last && !(i < len(c.FlushAfter) && c.FlushAfter[i] > 0) {
+			continue
+		}
+		// rows first..i are one block: a window of the buffer, the later rows right behind it
+		if err := fw.WriteBlock(&out, i-first+1, rows[start:ends[i]]); err != nil {
+			return false, nil, fmt.Errorf("WriteBlock: %v", err)
+		}
+		start, first = ends[i], i+1
+		nblocks++
+	}
+	nt := nblocks >= 2 && len(rows) > 0
+	labels := []string{"filewriter", "compression_" + c.Compression}
+	if nblocks >= 2 {
+		labels = append(labels, "filewriter_multi_block")
+	}
+	if !bytes.Equal(rows, rowsWas) {
+		return nt, labels, fmt.Errorf("WriteBlock changed the caller's buffer of encoded rows")
+	}
+	if string(doc) != docWas {
+		return nt, labels, fmt.Errorf("FileWriter changed the caller's schema bytes")
+	}
+	schema, lay, blocks, err := ref.ReadRecords(out.Bytes())
+	if err != nil {
+		return nt, labels, fmt.Errorf("reference reader rejects the file: %w", err)
+	}
+	if got := string(lay.Meta["avro.codec"]); got != c.Compression {
+		return nt, labels, fmt.Errorf("avro.codec is %q, requested %q", got, c.Compression)
+	}
+	if len(blocks) != nblocks {
+		return nt, labels, fmt.Errorf("%d blocks written, file holds %d", nblocks, len(blocks))
+	}
+	var datums []ref.Datum
+	for _, b := range blocks {
+		datums = append(datums, b...)
+	}
+	if len(datums) != len(in) {
+		return nt, labels, fmt.Errorf("wrote %d records, file holds %d", len(in), len(datums))
+	}
+	for i := range in {
+		if err := spec.Match(in[i], spec.AbsOfDatum(schema, datums[i]), fmt.Sprintf("record[%d]", i)); err != nil {
+			return nt, labels, fmt.Errorf("independent reader sees different data: %w", err)
+		}
+	}
+	return nt, labels, nil
+}
+
+func TestC02FileWriter(t *testing.T) {
+	col := stats.New("C02")
+	col.Rule = c02Rule
+	propCheck(t, col, "c02fw", drawEncCase, runC02FileWriter)
 }
